@@ -51,6 +51,10 @@ pub enum StoreFault {
     FieldChar { path: String, pointer: String, at: usize, ch: char },
     /// one node of a genuine artifact wrapped into `depth` nested arrays: deep nesting in the
     /// middle of an otherwise ordinary file (whatever precedes it has been scanned normally)
+    /// a genuine recursive node of an artifact pumped: an object that contains a descendant with
+    /// the same keys is nested into itself until the file is `depth` levels deep — deep nesting
+    /// that is well-typed for the reader
+    DeepPump { path: String, pick: u64, depth: usize },
     DeepSplice {
         path: String,
         pick: u64,
@@ -183,6 +187,51 @@ fn apply_store_fault(sb: &Sandbox, f: &StoreFault) -> bool {
             cs[i] = *ch;
             *doc.pointer_mut(pointer).unwrap() = Value::String(cs.into_iter().collect());
             sb.write(path, serde_json::to_string_pretty(&doc).unwrap().as_bytes());
+            true
+        }
+        StoreFault::DeepPump { path, pick, depth } => {
+            let Some(b) = sb.read(path) else { return false };
+            let Ok(mut doc) = serde_json::from_slice::<Value>(&b) else { return false };
+            let keys = |v: &Value| -> Option<Vec<String>> {
+                match v {
+                    Value::Object(m) if !m.is_empty() => Some(m.keys().cloned().collect()),
+                    _ => None,
+                }
+            };
+            let ptrs = faults::all_pointers(&doc);
+            let objs: Vec<(String, Vec<String>)> = ptrs.iter().filter_map(|q| doc.pointer(q).and_then(keys).map(|k| (q.clone(), k))).collect();
+            let mut pairs: Vec<(String, String)> = Vec::new();
+            for (a, ka) in &objs {
+                for (d, kd) in &objs {
+                    if d.len() > a.len() && d.starts_with(a.as_str()) && d.as_bytes()[a.len()] == b'/' && ka == kd {
+                        pairs.push((a.clone(), d.clone()));
+                        if pairs.len() > 4000 {
+                            break;
+                        }
+                    }
+                }
+            }
+            if pairs.is_empty() {
+                return false;
+            }
+            let (a, d) = pairs[Prng::new(*pick).usize(pairs.len())].clone();
+            let levels = d[a.len()..].matches('/').count().max(1);
+            let inner = serde_json::to_string(doc.pointer(&d).unwrap()).unwrap();
+            *doc.pointer_mut(&d).unwrap() = Value::String("@@INNER@@".to_string());
+            let ctx = serde_json::to_string(doc.pointer(&a).unwrap()).unwrap();
+            let Some((pre, post)) = ctx.split_once("\"@@INNER@@\"") else { return false };
+            *doc.pointer_mut(&a).unwrap() = Value::String("@@SPLICE@@".to_string());
+            let times = depth / levels + 1;
+            let mut pumped = String::with_capacity(times * ctx.len() + inner.len());
+            for _ in 0..times {
+                pumped.push_str(pre);
+            }
+            pumped.push_str(&inner);
+            for _ in 0..times {
+                pumped.push_str(post);
+            }
+            let text = serde_json::to_string_pretty(&doc).unwrap();
+            sb.write(path, text.replacen("\"@@SPLICE@@\"", &pumped, 1).as_bytes());
             true
         }
         StoreFault::DeepSplice { path, pick, depth, extra_field } => {
@@ -824,6 +873,9 @@ fn check_case(sb: &Sandbox, opts: &Opts, idx: usize, case: &Case, per_op: usize,
                     for _ in 0..reps {
                         let path = (*p.pick(&arts)).clone();
                         let pick = p.next_u64();
+                        // (only beyond the reader's limit: a deep *valid* program is not "boundedly
+                        // nested input" for the later stages)
+                        plans.push(FaultPlan { store: StoreFault::DeepPump { path: path.clone(), pick, depth: 12_000 }, spec: clean_spec.clone() });
                         for depth in [150usize, 3_000, 12_000] {
                             for extra_field in [false, true] {
                                 plans.push(FaultPlan { store: StoreFault::DeepSplice { path: path.clone(), pick, depth, extra_field }, spec: clean_spec.clone() });
@@ -868,6 +920,7 @@ fn check_case(sb: &Sandbox, opts: &Opts, idx: usize, case: &Case, per_op: usize,
                     StoreFault::Symlink { .. } => "stored:symlink-dangling-loop-or-dir",
                     StoreFault::FieldChar { .. } => "stored:header-field-character-replaced",
                     StoreFault::DeepSplice { .. } => "stored:deep-nesting-spliced-into-artifact",
+                    StoreFault::DeepPump { .. } => "stored:recursive-node-pumped-beyond-reader-limit",
                     StoreFault::None => "",
                 };
                 *r.fired.entry(kind.to_string()).or_insert(0) += 1;
